@@ -46,6 +46,8 @@ def ser(tree):
             out.append([name, [ser(b) for b in av[1]]])
         elif op is sre_c.AT:
             out.append([name, str(av)])
+        elif op in (sre_c.ASSERT, sre_c.ASSERT_NOT):
+            out.append([name, [av[0], ser(av[1])]])
         elif op is sre_c.CATEGORY:
             out.append([name, str(av)])
         else:
